@@ -336,7 +336,8 @@ def analyse(facts):
     k = id(facts)
     if k not in _vc:
         from . import claims_sem
-        sem = claims_sem.verify_claims_table(facts)
+        from . import skeleton as S_
+        sem = claims_sem.verify_claims_table(facts, S_.entry_points(facts))
         decided = set(f.rule for f in sem if f.ok is not None)
         undecided = set(f.rule for f in sem if f.ok is None)
         out = [f for f in sem if f.ok is not None]
@@ -372,11 +373,13 @@ def parser_state_writes(facts, entries):
         ty = v.local_ty(1)
         ok = ty.startswith("&crate::generic::parsers::generic_parser::GenericParser<") and not ty.startswith("&mut")
         _f(out, "C15.R3", ok, vcb[0]["id"], "verify_claims takes &self", "verify_claims must take the parser by shared reference; it takes %s" % ty, vcb[0]["line"], v.file(), desc="verify_claims(&self, ..)")
-        # no interior mutability in the parser's fields
-        adt = facts.adts.get("crate::generic::parsers::generic_parser::GenericParser")
-        if adt:
-            bad = [f["name"] for f in adt["variants"][0]["fields"] if re.search(r"Cell<|RefCell<|Mutex<|RwLock<|OnceCell<|OnceLock<|Atomic", f["ty"])]
-            _f(out, "C15.R3", not bad, "crate::generic::parsers::generic_parser::GenericParser", "interior mutability in the parser" if bad else "parser fields", "fields %s allow state to change through &self" % bad, adt["line"], facts.rel(adt["file"]),
-               desc="GenericParser has no interior-mutable field")
+    # no interior mutability in the parser's fields
+    adt = facts.adts.get("crate::generic::parsers::generic_parser::GenericParser")
+    if adt:
+        bad = [f["name"] for f in adt["variants"][0]["fields"] if re.search(r"Cell<|RefCell<|Mutex<|RwLock<|OnceCell<|OnceLock<|Atomic", f["ty"])]
+        _f(out, "C15.R3", not bad, "crate::generic::parsers::generic_parser::GenericParser", "interior mutability in the parser" if bad else "parser fields", "fields %s allow state to change through &self" % bad, adt["line"], facts.rel(adt["file"]),
+           desc="GenericParser has no interior-mutable field")
+    else:
+        _f(out, "C15.R3", False, "crate::generic::parsers::generic_parser::GenericParser", "anchor missing", "type GenericParser not found")
     _f(out, "C15.R3", True, "(reachable set)", "no writes", "", desc="%d functions reachable from the 16 parse methods, none writes parser state" % len(reach))
     return out
